@@ -231,6 +231,33 @@ func (s *vfSUT) bucketDirs(home string) (dirs []string) {
 	return
 }
 
+// indexFilesRel lists every derived index file below home (sorted relative paths).
+func (s *vfSUT) indexFilesRel(home string) (files []string) {
+	for _, d := range s.bucketDirs(home) {
+		for _, f := range store.VFIndexFiles(d) {
+			rel, _ := filepath.Rel(home, filepath.Join(d, f))
+			files = append(files, rel)
+		}
+	}
+	return
+}
+
+// reopenCopy copies the closed directory, deletes the index files selected by
+// rm from the copy and opens a fresh instance on it.
+func (s *vfSUT) reopenCopy(closed, rm string) (removed []string, err error) {
+	s.gen++
+	newHome := filepath.Join(s.base, fmt.Sprintf("g%d", s.gen))
+	if err = store.VFCopyDir(closed, newHome); err != nil {
+		return nil, err
+	}
+	s.home = newHome
+	removed = vfSelectIndexFiles(s.indexFilesRel(newHome), rm)
+	for _, f := range removed {
+		os.Remove(filepath.Join(newHome, f))
+	}
+	return removed, s.open()
+}
+
 // Restart = clean shutdown, then a fresh instance on a copy of the directory
 // taken when Close returned (what a new process would find), minus the index
 // files selected by rm.
@@ -238,21 +265,89 @@ func (s *vfSUT) Restart(rm string) (removed []string, err error) {
 	s.waitBG("before close")
 	s.hs.Close()
 	s.hs = nil
-	s.gen++
-	newHome := filepath.Join(s.base, fmt.Sprintf("g%d", s.gen))
-	if err = store.VFCopyDir(s.home, newHome); err != nil {
-		return nil, err
+	closed := s.home
+	removed, err = s.reopenCopy(closed, rm)
+	os.RemoveAll(closed)
+	return
+}
+
+// RestartVariants reopens the same closed directory once per index-file subset.
+func (s *vfSUT) RestartVariants(rm, mode string, probe func(label string)) (removed []string, n int, err error) {
+	s.waitBG("before close")
+	s.hs.Close()
+	s.hs = nil
+	closed := s.home
+	files := s.indexFilesRel(closed)
+	k := len(files)
+	var rules []string
+	if mode == "exhaustive" && k <= 6 {
+		for m := 0; m < 1<<uint(k); m++ {
+			rules = append(rules, fmt.Sprintf("mask:%d", m))
+		}
+		s.res.Event("restart.subsets_exhaustive", 1)
+	} else if mode == "few" {
+		r := ref.NewRand(uint64(s.gen)*104729 + uint64(k))
+		rules = []string{"all", []string{"hash", "s", "m"}[r.Intn(3)], fmt.Sprintf("rand:%d", r.Uint64()%1000000)}
+		if k > 0 {
+			rules = append(rules, fmt.Sprintf("mask:%d", 1<<uint(r.Intn(k))))
+		}
+		s.res.Event("restart.subsets_few", 1)
+	} else {
+		rules = []string{"", "all", "hash", "s", "m"}
+		for i := 0; i < k && i < 10; i++ {
+			rules = append(rules, fmt.Sprintf("mask:%d", 1<<uint(i)))
+		}
+		nr := 3
+		if mode == "exhaustive" {
+			nr = 16
+		}
+		r := ref.NewRand(uint64(s.gen)*7919 + uint64(k))
+		for i := 0; i < nr; i++ {
+			rules = append(rules, fmt.Sprintf("rand:%d", r.Uint64()%1000000))
+		}
+		s.res.Event("restart.subsets_sampled", 1)
 	}
-	os.RemoveAll(s.home)
-	s.home = newHome
-	for _, d := range s.bucketDirs(newHome) {
-		for _, f := range vfSelectIndexFiles(store.VFIndexFiles(d), rm) {
-			os.Remove(filepath.Join(d, f))
-			rel, _ := filepath.Rel(newHome, filepath.Join(d, f))
-			removed = append(removed, rel)
+	for _, rule := range rules {
+		rem, e := s.reopenCopy(closed, rule)
+		if e != nil {
+			os.RemoveAll(closed)
+			return rem, n, fmt.Errorf("variant %s (removed %v): %v", rule, rem, e)
+		}
+		n++
+		s.res.Seen(fmt.Sprintf("restart-files/%s", vfFilesPattern(files, rem)))
+		probe(fmt.Sprintf("%s removed=%v", rule, rem))
+		s.waitBG("variant close")
+		s.hs.Close()
+		s.hs = nil
+		os.RemoveAll(s.home)
+	}
+	removed, err = s.reopenCopy(closed, rm)
+	os.RemoveAll(closed)
+	return
+}
+
+// vfFilesPattern abstracts which kinds of index files were present/removed.
+func vfFilesPattern(all, removed []string) string {
+	rm := map[string]bool{}
+	for _, f := range removed {
+		rm[f] = true
+	}
+	cnt := map[string]int{}
+	for _, f := range all {
+		kind := f[strings.LastIndex(f, ".")+1:]
+		if rm[f] {
+			cnt[kind+"-"]++
+		} else {
+			cnt[kind+"+"]++
 		}
 	}
-	return removed, s.open()
+	cl := func(n int) string {
+		if n > 2 {
+			return "many"
+		}
+		return strconv.Itoa(n)
+	}
+	return fmt.Sprintf("hash+%s,-%s/s+%s,-%s/m+%s,-%s", cl(cnt["hash+"]), cl(cnt["hash-"]), cl(cnt["s+"]), cl(cnt["s-"]), cl(cnt["m+"]), cl(cnt["m-"]))
 }
 
 type vfRange struct{ bucket, b, e int }
